@@ -30,6 +30,3 @@ Definition pinned_decls_stack : list string :=
 
 Definition ok_stack : Prop :=
   of_file fst "stack.go" InvStack.inventory = pinned_stack /\ of_file (fun s => s) "stack.go" InvStack.decls = pinned_decls_stack.
-
-Lemma C10_mlink_inventory_stack : InvStack.files = pinned_files /\ ok_stack.
-Proof. unfold ok_stack; repeat split; vm_compute; reflexivity. Qed.
